@@ -148,7 +148,7 @@ func c16T(t time.Time) string { return t.UTC().Format("2006-01-02T15:04:05.99999
 
 // c16Check replays seed+path on one instance; invariants are evaluated before and after the last
 // command, the ghost set of every id ever seen is carried along the path after the seed.
-func (e *c15Env) c16Check(root int, path []int) (res c15Result) {
+func (e *c15Env) c16Check(root int, path []int, order int32) (res c15Result) {
 	e.setHA(root)
 	cmds := e.full(root, path)
 	n := len(cmds)
@@ -158,7 +158,7 @@ func (e *c15Env) c16Check(root int, path []int) (res c15Result) {
 	if len(path) > 0 {
 		label = e.menu[path[len(path)-1]].Name
 	}
-	a := c15NewInst()
+	a := c15NewInstOrder(order)
 	res.Traces = 1
 	ever := map[string]map[uint64]bool{}
 	note := func(ids *c16Ids) {
